@@ -665,3 +665,33 @@ def _end_to_end(ctx, keys):
                    'through the real grammar', world, thunk,
                    {value: values, spec: tuple(specs)}, oracle,
                    hooks=[_pp_hook], value_eq=_bool_eq, setup=setup, depth=7)
+    # the same through a history: an earlier match() with another value and
+    # spec leaves nothing behind (parser objects, parse results and operator
+    # tables may be shared between calls, what they answer may not)
+    rep.rule('R18.7', 'match() keeps no state: after an earlier match() with '
+             'another value / spec it answers as documented')
+    value1, spec1 = T('sym', 'earlier_value'), T('sym', 'earlier_spec')
+
+    def thunk2(interp):
+        try:
+            interp.call(f, [value1, spec1])
+        except AbsRaise:
+            pass
+        return interp.call(f, [value, spec])
+
+    def setup2(interp):
+        setup(interp)
+        interp.types[value1] = 'str'
+        interp.types[spec1] = 'str'
+    guided_compare(rep, 'R18.7', 'match[after an earlier call]',
+                   'match(value, spec) after match(earlier_value, '
+                   'earlier_spec)', world, thunk2,
+                   {value1: ('5', 'abc'),
+                    spec1: ('>= 4', '<= 4', '<in> b', 'abc',
+                            '<range-in> [ 1 10 ]', '<or> 5 <or> abc'),
+                    value: ('5', '3', 'abc', '10'),
+                    spec: ('>= 4', '<= 4', '<in> b', '<in> x', 's== abc',
+                           'abc', '<range-in> [ 1 10 ]',
+                           '<range-in> [ 1 10 )', '<or> 5 <or> abc',
+                           '<or> 3')}, oracle,
+                   hooks=[_pp_hook], value_eq=_bool_eq, setup=setup2, depth=7)
